@@ -35,11 +35,23 @@ A float literal is read as the DECIMAL it spells (1e-3 -> 1/1000: the convention
 consequences); `a > b` is emitted as `xlt b a`, `a >= b` as `xle b a`, the operands of `==` in a canonical order
 (IEEE: the same predicate, NaN included), `(-k) * e` as `xneg (xscale k e)`.
 
+THE HEAD (-> src_head : list hstmt, meaning: Model/BoundsSrc.v run_head, over the five OPTIONAL vectors).  Every statement of
+BADS.__init__ that stores one of the five vector parameters / self.D / the five vector attributes must be one of
+  if <c>: v = <val> | raise ValueError(<literal>) | nested if / else      c ::= v is None | v is not None | and | or | not
+        val ::= np.atleast_2d(w).copy() | np.copy(w) | w  (VCopy)  |  np.full(np.atleast_2d(w).shape, np.nan)  (VFullLike)
+              | np.ones((1, self.D)) * [-]np.inf  (VRow; only after self.D is set)
+  x0 = np.atleast_2d(x0); self.D = x0.shape[1]              (HDim, the two statements adjacent)
+  (self.x0, self.lower_bounds, ...) = self._bounds_check_(x0.copy(), lb, ub, plb, pub, non_box_cons)      (positional, this order)
+  if not np.all(np.isfinite(self.x0)): self.x0 = np.random.uniform(low=self.plb, high=self.pub, ...)      (-> src_post_check, a text pin)
+followed by the defaults block and the shape test of _bounds_check_ (HAssign / HShape).  Python evaluates an `if` test once, the
+interpreter re-reads the condition at every statement of the block: the translator raises when a statement assigns a vector that a
+later condition of the same block mentions (`(A or B) and B` is first simplified to `B`).
+
 A local's value is an expression over the vectors AS THEY WERE when it was assigned: when a repair assigns a vector, every
 local that (transitively) read it becomes stale and a later use raises.  Assigning lb / ub anywhere after the head raises.
 
-TRANSLATOR VALIDATION (every run, props/C08.py): the GENERATED program (`run_prog src_prog` inside Model/BoundsSrc.v's
-construct_with) is evaluated by Coq on the same ~20000 definitions as the hand-written model and compared with the real
+TRANSLATOR VALIDATION (every run, props/C08.py): the GENERATED programs (`run_head src_head` and `run_prog src_prog` inside
+Model/BoundsSrc.v's construct_with2) are evaluated by Coq on the same ~20000 definitions as the hand-written model and compared with the real
 constructor's outcome; the Python evaluator of the same trees (used to aim the search) is compared with it implicitly
 through the monitor only.
 
@@ -426,7 +438,7 @@ def parse_bounds_check(fn):
     st = State(vec)
     prog = []          # ("test", tag, [ir]) | ("repair", name, [ir], [(field, ir)])
     info = dict(shape_checked=None, bc_defaults=[], return_order=None, arg_order=[vec[a] for a in args[1:6]],
-                nonbox_block=False, lines={})
+                nonbox_block=False, lines={}, head=[])
     body = list(fn.body)
     if body and isinstance(body[0], ast.Expr) and isinstance(body[0].value, ast.Constant) and isinstance(body[0].value.value, str):
         body = body[1:]
@@ -476,6 +488,7 @@ def parse_bounds_check(fn):
                     if seen_test or prog or info["shape_checked"] is not None:
                         bad("the shape test does not precede every other test", s, tag)
                     info["shape_checked"] = parse_shape_test(s.test, st, tag)
+                    info["head"].append(("shape", info["shape_checked"], tag))
                     continue
                 if info["shape_checked"] is None:
                     bad("a test precedes the shape test", s, tag)
@@ -577,6 +590,8 @@ def parse_defaults_block(s, st, rev, info):
         if isinstance(n, (ast.Raise, ast.Return)):
             bad("the N0 > 1 branch raises / returns (not modelled: N0 = 1)", n)
     got = []
+    outer_c = head_cond(s.test, vec)
+    assigned = set()
     for b in inner.orelse:
         if is_logger_stmt(b):
             continue
@@ -585,16 +600,11 @@ def parse_defaults_block(s, st, rev, info):
               and b.body[0].targets[0].id == is_none_test(b.test))
         if not ok:
             bad("statement of the N0 = 1 defaults that is not `if v is None: v = np.copy(w)`", b)
-        v = b.body[0].value
-        src = None
-        if isinstance(v, ast.Call) and not v.keywords:
-            if is_np(v.func, "copy") and len(v.args) == 1 and isinstance(v.args[0], ast.Name):
-                src = v.args[0].id
-            elif isinstance(v.func, ast.Attribute) and v.func.attr == "copy" and not v.args and isinstance(v.func.value, ast.Name):
-                src = v.func.value.id
-        if src not in vec:
+        head_if(b, vec, outer_c, True, info["head"], assigned)
+        h = info["head"][-1]
+        if h[3][0] != "copy":
             bad("default of an absent plausible bound is not a copy of one of the vectors", b)
-        got.append((vec[is_none_test(b.test)], vec[src]))
+        got.append((h[2], h[3][1]))
     info["bc_defaults"] = got
 
 
@@ -611,63 +621,128 @@ def parse_shape_test(test, st, tag):
         if not ok:
             bad("disjunct of the shape test is not `v.shape != (1, D)`", v, tag)
         out.append(st.vec[v.left.value.id])
-    return sorted(set(out), key=FIELDS.index)
+    if len(set(out)) != len(out):
+        bad("a vector is shape-tested twice", test, tag)
+    return out
 
 
-# ----------------------------------------------------------------------------- BADS.__init__ (vector defaults)
+# ----------------------------------------------------------------------------- the HEAD: BADS.__init__ + head of _bounds_check_
+#
+# hstmt trees (Model/BoundsSrc.v):  ("assign", cond, field, val) | ("raise", cond, tag) | ("dim",) | ("shape", [fields], tag)
+# cond: ("none", f) | ("some", f) | ("and", a, b) | ("or", a, b) | ("not", a);  val: ("copy", f) | ("full", f, x) | ("row", x)
+# with x in "XNaN" / "XPInf" / "XNInf".
+
+HF = {"cx": "FX", "cl": "FL", "cu": "FU", "cpl": "FPL", "cpu": "FPU"}
 
 
-def canon_cond(n, vec):
-    """condition over `v is None` / `v is not None` with and / or / not -> canonical text over the field names"""
+def head_cond(n, vec):
     a = is_none_test(n)
     if a is not None and a in vec:
-        return f"{vec[a]} is None"
+        return ("none", vec[a])
     a = is_none_test(n, negate=True)
     if a is not None and a in vec:
-        return f"{vec[a]} is not None"
-    if isinstance(n, ast.BoolOp):
-        j = " and " if isinstance(n.op, ast.And) else " or "
-        return "(" + j.join(canon_cond(v, vec) for v in n.values) + ")"
-    bad("condition of an __init__ default that is not made of `v is None` / `v is not None`", n)
+        return ("some", vec[a])
+    if isinstance(n, ast.BoolOp) and isinstance(n.op, (ast.And, ast.Or)):
+        k = "and" if isinstance(n.op, ast.And) else "or"
+        r = head_cond(n.values[0], vec)
+        for v in n.values[1:]:
+            r = (k, r, head_cond(v, vec))
+        return r
+    if isinstance(n, ast.UnaryOp) and isinstance(n.op, ast.Not):
+        return ("not", head_cond(n.operand, vec))
+    bad("condition on the vectors that is not made of `v is None` / `v is not None` / and / or / not", n)
 
 
-def strip_paren(s):
-    return s[1:-1] if s.startswith("(") and s.endswith(")") else s
+def conj(outer, c):
+    return c if outer is None else ("and", outer, c)
 
 
-def canon_value(n, vec):
-    """right-hand side of an __init__ default -> canonical text"""
+def head_value(n, vec, D_bound):
+    """right-hand side of a default -> val tree"""
     if isinstance(n, ast.Call) and isinstance(n.func, ast.Attribute) and n.func.attr == "copy" and not n.args and not n.keywords:
-        return canon_value(n.func.value, vec)
-    if isinstance(n, ast.Call) and is_np(n.func, "atleast_2d") and len(n.args) == 1 and not n.keywords:
-        return canon_value(n.args[0], vec)
+        return head_value(n.func.value, vec, D_bound)
+    if isinstance(n, ast.Call) and (is_np(n.func, "atleast_2d") or is_np(n.func, "copy")) and len(n.args) == 1 and not n.keywords:
+        return head_value(n.args[0], vec, D_bound)
     if isinstance(n, ast.Name) and n.id in vec:
-        return vec[n.id]
+        return ("copy", vec[n.id])
     if (isinstance(n, ast.Call) and is_np(n.func, "full") and len(n.args) == 2 and not n.keywords and is_np(n.args[1], "nan")
             and isinstance(n.args[0], ast.Attribute) and n.args[0].attr == "shape"):
-        return f"full(shape({canon_value(n.args[0].value, vec)}), nan)"
+        inner = head_value(n.args[0].value, vec, D_bound)
+        if inner[0] == "copy":
+            return ("full", inner[1], "XNaN")
     if isinstance(n, ast.BinOp) and isinstance(n.op, ast.Mult):
         l, r = n.left, n.right
         ones = (isinstance(l, ast.Call) and is_np(l.func, "ones") and len(l.args) == 1 and not l.keywords and isinstance(l.args[0], ast.Tuple)
                 and len(l.args[0].elts) == 2 and isinstance(l.args[0].elts[0], ast.Constant) and l.args[0].elts[0].value == 1
-                and dotted(l.args[0].elts[1]) == "self.D")
+                and type(l.args[0].elts[0].value) is int and dotted(l.args[0].elts[1]) == "self.D")
+        if ones and not D_bound:
+            bad("self.D used before it is set", n)
         if ones and is_np(r, "inf"):
-            return "ones((1, D)) * inf"
+            return ("row", "XPInf")
         if ones and isinstance(r, ast.UnaryOp) and isinstance(r.op, ast.USub) and is_np(r.operand, "inf"):
-            return "ones((1, D)) * -inf"
-    bad("right-hand side of an __init__ default not in the grammar", n)
+            return ("row", "XNInf")
+    bad("right-hand side of a vector default not in the grammar", n)
+
+
+def cond_fields(c, acc=None):
+    acc = set() if acc is None else acc
+    if c[0] in ("none", "some"):
+        acc.add(c[1])
+    else:
+        for x in c[1:]:
+            cond_fields(x, acc)
+    return acc
+
+
+def disjuncts(c):
+    return disjuncts(c[1]) + disjuncts(c[2]) if c[0] == "or" else [c]
+
+
+def implied_conj(outer, c):
+    """`outer and c`, simplified to `c` when c is literally one of the disjuncts of outer"""
+    if outer is not None and c in disjuncts(outer):
+        return c
+    return conj(outer, c)
+
+
+def head_if(s, vec, outer, D_bound, out, assigned=None):
+    """Python evaluates the test of an `if` ONCE, the interpreter of the head re-reads the condition at every statement: the two
+    agree as long as no statement of the block assigns a vector that a LATER statement's condition mentions (checked)."""
+    assigned = set() if assigned is None else assigned
+    c = head_cond(s.test, vec)
+    for branch, cond in ((s.body, implied_conj(outer, c)), (s.orelse, conj(outer, ("not", c)))):
+        for b in branch:
+            if not (is_logger_stmt(b) or isinstance(b, ast.Pass)) and cond_fields(cond) & assigned:
+                bad(f"a condition is re-read after {sorted(cond_fields(cond) & assigned)} was assigned in the same block", b)
+            if is_logger_stmt(b) or isinstance(b, ast.Pass):
+                continue
+            if isinstance(b, ast.If):
+                head_if(b, vec, cond, D_bound, out, assigned)
+                continue
+            if isinstance(b, ast.Raise):
+                msg = raise_message(b)
+                if msg is None:
+                    bad("raise in a vector default that is not ValueError(<literal>)", b)
+                out.append(("raise", cond, classify(msg)))
+                continue
+            if isinstance(b, ast.Assign) and len(b.targets) == 1 and isinstance(b.targets[0], ast.Name) and b.targets[0].id in vec:
+                out.append(("assign", cond, vec[b.targets[0].id], head_value(b.value, vec, D_bound)))
+                assigned.add(vec[b.targets[0].id])
+                continue
+            bad("statement of a vector-default block not in the whitelist", b)
 
 
 def parse_init(fn):
-    """the statements of BADS.__init__ that touch the five vectors, in order -> [(target, condition, value)]"""
+    """the statements of BADS.__init__ that touch the five vectors, in order -> (head statements before the call, post pins)"""
     params = [a.arg for a in fn.args.args]
     want = ["self", "fun", "x0", "lower_bounds", "upper_bounds", "plausible_lower_bounds", "plausible_upper_bounds"]
     if params[:7] != want:
         bad(f"BADS.__init__ does not start with {want}: {params[:7]}", fn)
     vec = dict(zip(params[2:7], FIELDS))
-    out = []
+    out, post = [], []
     called = False
     D_bound = False
+    pending_2d = False
     for s in fn.body:
         touched = (stored_names(s) & set(vec))
         attr_store = [n for n in ast.walk(s) if isinstance(n, ast.Attribute) and isinstance(n.ctx, ast.Store) and dotted(n) in
@@ -687,7 +762,7 @@ def parse_init(fn):
                     ok = (not a[0].value.args and kw.get("low") == "self.plausible_lower_bounds" and kw.get("high") == "self.plausible_upper_bounds")
             if not ok:
                 bad("a vector attribute is assigned after _bounds_check_ by something else than the uniform draw of a non-finite x0", s)
-            out.append(("cx", "after _bounds_check_: not all(isfinite(cx))", "uniform(cpl, cpu)"))
+            post.append(("cx", "not all(isfinite(cx))", "uniform(cpl, cpu)"))
             continue
         if calls_bc:
             ok = (isinstance(s, ast.Assign) and len(s.targets) == 1 and isinstance(s.targets[0], ast.Tuple)
@@ -704,79 +779,56 @@ def parse_init(fn):
                 bad("_bounds_check_ is not called as (self.x0, self.lb, self.ub, self.plb, self.pub) = self._bounds_check_(x0.copy(), lb, ub, plb, pub, non_box_cons) after self.D is set", s)
             called = True
             continue
-        # self.D = x0.shape[1]
+        # self.D = x0.shape[1]   (directly after x0 = np.atleast_2d(x0))
         if attr_store:
             ok = (isinstance(s, ast.Assign) and len(s.targets) == 1 and dotted(s.targets[0]) == "self.D"
                   and dump(s.value) == dump(ast.parse(f"{params[2]}.shape[1]", mode="eval").body))
-            if not ok:
-                bad("a vector attribute / self.D is assigned before _bounds_check_ in an unknown way", s)
-            out.append(("D", "always", "shape(cx)[1]"))
+            if not ok or not pending_2d or D_bound:
+                bad("self.D / a vector attribute is assigned before _bounds_check_ otherwise than by `x0 = np.atleast_2d(x0); self.D = x0.shape[1]`", s)
+            out.append(("dim",))
             D_bound = True
+            pending_2d = False
             continue
+        if pending_2d:
+            bad("x0 = np.atleast_2d(x0) is not directly followed by self.D = x0.shape[1]", s)
         # x0 = np.atleast_2d(x0)
-        if (isinstance(s, ast.Assign) and len(s.targets) == 1 and isinstance(s.targets[0], ast.Name) and s.targets[0].id in vec
+        if (isinstance(s, ast.Assign) and len(s.targets) == 1 and isinstance(s.targets[0], ast.Name) and vec.get(s.targets[0].id) == "cx"
                 and isinstance(s.value, ast.Call) and is_np(s.value.func, "atleast_2d") and len(s.value.args) == 1
                 and isinstance(s.value.args[0], ast.Name) and s.value.args[0].id == s.targets[0].id):
+            pending_2d = True
             continue
         if isinstance(s, ast.If):
-            out += parse_init_if(s, vec, "")
+            head_if(s, vec, None, D_bound, out)
             continue
         bad("statement of BADS.__init__ that assigns one of the five vectors in an unknown way", s)
     if not called:
         bad("BADS.__init__ does not call self._bounds_check_", fn)
-    return out
+    if len(post) != 1:
+        bad(f"expected exactly one statement on the vectors after _bounds_check_ (the draw of a non-finite x0), found {len(post)}", fn)
+    return out, post
 
 
-def parse_init_if(s, vec, outer):
-    cond = strip_paren(canon_cond(s.test, vec))
-    full = cond if not outer else f"{outer} and ({cond})" if " or " in cond else f"{outer} and {cond}"
-    out = []
-    for b in s.body:
-        if is_logger_stmt(b):
-            continue
-        if isinstance(b, ast.If):
-            out += parse_init_if(b, vec, full)
-            continue
-        if isinstance(b, ast.Raise):
-            msg = raise_message(b)
-            if msg is None:
-                bad("raise in an __init__ default that is not ValueError(<literal>)", b)
-            out.append((None, full, "raise " + classify(msg)))
-            continue
-        if isinstance(b, ast.Assign) and len(b.targets) == 1 and isinstance(b.targets[0], ast.Name) and b.targets[0].id in vec:
-            out.append((vec[b.targets[0].id], full, canon_value(b.value, vec)))
-            continue
-        bad("statement of an __init__ default block not in the whitelist", b)
-    if s.orelse:
-        neg = f"not ({cond})"
-        if len(s.orelse) == 1 and isinstance(s.orelse[0], ast.If):
-            bad("elif chain in an __init__ default", s)
-        for b in s.orelse:
-            if is_logger_stmt(b):
-                continue
-            if isinstance(b, ast.Assign) and len(b.targets) == 1 and isinstance(b.targets[0], ast.Name) and b.targets[0].id in vec:
-                out.append((vec[b.targets[0].id], (outer + " and " if outer else "") + neg, canon_value(b.value, vec)))
-                continue
-            bad("statement of the else branch of an __init__ default not in the whitelist", b)
-    return out
+def coq_cond(c):
+    k = c[0]
+    if k == "none":
+        return f"(CNone {HF[c[1]]})"
+    if k == "some":
+        return f"(CSome {HF[c[1]]})"
+    if k == "not":
+        return f"(CNot {coq_cond(c[1])})"
+    return f"({'CAnd' if k == 'and' else 'COr'} {coq_cond(c[1])} {coq_cond(c[2])})"
 
 
-def normalise_init(items):
-    """[(target, condition, value)] in source order -> the list Model/BoundsSrc.v states (a raise belongs to the vector whose
-    absence triggers it; `if c: raise` + else-assignment under the same outer condition reads `c` / `outer`)"""
-    out = []
-    for i, (tg, cond, val) in enumerate(items):
-        if tg is None:
-            # raise under `cx is None and (…)`: attribute it to cx
-            tg = "cx" if cond.startswith("cx is None") else "?"
-        m = " and not ("
-        if m in cond:                      # else branch: outer and not (c)  ->  outer   (it follows the raise under outer and c)
-            outer, c = cond.split(m, 1)
-            prev = out[-1] if out else None
-            if prev and prev[2].startswith("raise") and prev[1] == f"{outer} and ({c[:-1]})":
-                cond = outer
-        out.append((tg, cond, val))
-    return out
+def coq_hstmt(h):
+    if h[0] == "assign":
+        v = h[3]
+        val = (f"(VCopy {HF[v[1]]})" if v[0] == "copy" else f"(VFullLike {HF[v[1]]} {v[2]})" if v[0] == "full" else f"(VRow {v[1]})")
+        return f"HAssign {coq_cond(h[1])} {HF[h[2]]} {val}"
+    if h[0] == "raise":
+        return f"HRaise {coq_cond(h[1])} {cstr(h[2])}"
+    if h[0] == "dim":
+        return "HDim"
+    return "HShape [" + "; ".join(HF[f] for f in h[1]) + "] " + cstr(h[2])
 
 
 # ----------------------------------------------------------------------------- trees: inline, evaluate, emit
@@ -894,7 +946,8 @@ def snapshot(prog, st, info, init):
     lo, hi = effective_bounds(prog, st)
     return dict(steps=steps, lb_eff=tojson(inline(lo, d)), ub_eff=tojson(inline(hi, d)),
                 shape_checked=info["shape_checked"], bc_defaults=[list(x) for x in info["bc_defaults"]],
-                arg_order=info["arg_order"], return_order=info["return_order"], init=[list(x) for x in init])
+                arg_order=info["arg_order"], return_order=info["return_order"], head=tojson(tuple(init["head"])),
+                post=[list(x) for x in init["post"]])
 
 
 # ---- evaluation of an inlined tree on binary64 values (NumPy semantics) — used ONLY to aim the search
@@ -995,7 +1048,8 @@ def load():
     if [m.name for m in callers] != ["__init__"]:
         bad(f"_bounds_check_ is referenced from {[m.name for m in callers]}, expected exactly once from __init__")
     prog, st, info = parse_bounds_check(ms["_bounds_check_"])
-    init = normalise_init(parse_init(ms["__init__"]))
+    head, post = parse_init(ms["__init__"])
+    init = dict(head=head + info["head"], post=post)
     if info["return_order"] != info["arg_order"]:
         bad(f"_bounds_check_ returns the vectors in the order {info['return_order']}, not the order of its arguments")
     return prog, st, info, init
@@ -1028,10 +1082,10 @@ def render(prog, st, info, init):
     L += ["  ].", "", "Definition src_check (cs : list coord) : schecked := run_prog src_prog cs.", "",
           "Definition src_arg_order : list string := [" + "; ".join(cstr(x) for x in info["arg_order"]) + "].",
           "Definition src_return_order : list string := [" + "; ".join(cstr(x) for x in info["return_order"]) + "].",
-          "Definition src_shape_checked : list string := [" + "; ".join(cstr(x) for x in info["shape_checked"]) + "].",
-          "Definition src_bc_defaults : list (string * string) := [" + "; ".join(f"({cstr(a)}, {cstr(b)})" for a, b in info["bc_defaults"]) + "].",
-          "Definition src_init_defaults : list (string * string * string) :=\n  [" +
-          ";\n   ".join(f"({cstr(a)}, {cstr(b)}, {cstr(c)})" for a, b, c in init) + "]."]
+          "Definition src_post_check : list (string * string * string) := [" +
+          "; ".join(f"({cstr(a)}, {cstr(b)}, {cstr(c)})" for a, b, c in init["post"]) + "].", "",
+          "(* BADS.__init__ up to the call of _bounds_check_, then the head of _bounds_check_ (N0 = 1) *)",
+          "Definition src_head : list hstmt :=\n  [ " + ";\n    ".join(coq_hstmt(h) for h in init["head"]) + " ]."]
     return "\n".join(L) + "\n"
 
 
@@ -1095,7 +1149,7 @@ def diff(snap, ref=None):
         if snap[k] != ref[k]:
             out.append(dict(what=f"{k} differs from the reference", tag=k, index=None, cur=dict(kind="expr", tag=k, disj=[], expr=snap[k]),
                             ref=dict(kind="expr", tag=k, disj=[], expr=ref[k])))
-    for k in ("shape_checked", "bc_defaults", "arg_order", "return_order", "init"):
+    for k in ("arg_order", "return_order", "head", "post"):
         if snap[k] != ref[k]:
             out.append(dict(what=f"{k}: {snap[k]} (reference {ref[k]})", tag=k, index=None, cur=None, ref=None))
     return out
